@@ -12,9 +12,9 @@ import (
 	verifrt "github.com/trustbloc/sidetree-go/pkg/internal/verifrt"
 )
 
-var c18Types = []string{jsonWebKey2020, ecdsaSecp256k1VerificationKey2019, bls12381G2Key2020, x25519KeyAgreementKey2019, ed25519VerificationKey2018, ed25519VerificationKey2020}
-var c18Purposes = []string{"authentication", "assertionMethod", "keyAgreement", "capabilityDelegation", "capabilityInvocation"}
-var c18Rel = []string{"authentication", "assertionMethod", "keyAgreement", "capabilityDelegation", "capabilityInvocation"}
+var c18AllTypes = []string{jsonWebKey2020, ecdsaSecp256k1VerificationKey2019, bls12381G2Key2020, x25519KeyAgreementKey2019, ed25519VerificationKey2018, ed25519VerificationKey2020}
+var c18AllPurposes = []string{"authentication", "assertionMethod", "keyAgreement", "capabilityDelegation", "capabilityInvocation"}
+var c18AllRel = []string{"authentication", "assertionMethod", "keyAgreement", "capabilityDelegation", "capabilityInvocation"}
 
 type c18Key struct {
 	id, typ  string
@@ -24,7 +24,7 @@ type c18Key struct {
 	edPub    []byte
 }
 
-func c18AnyKey(tag string) *c18Key {
+func c18AnyKey(tag string, c18Types, c18Purposes []string) *c18Key {
 	k := &c18Key{id: verifrt.AnyAtom(tag + "-id"), typ: c18Types[verifrt.Choose(tag+"-type", len(c18Types))]}
 	for i := range c18Purposes {
 		k.purposes = append(k.purposes, verifrt.Choose(tag+"-purpose-"+c18Purposes[i], 2) == 1)
@@ -45,6 +45,7 @@ func c18AnyKey(tag string) *c18Key {
 }
 
 func (k *c18Key) internal() map[string]interface{} {
+	c18Purposes := c18AllPurposes
 	m := map[string]interface{}{"id": k.id, "type": k.typ}
 	var ps []interface{}
 	for i, on := range k.purposes {
@@ -63,11 +64,14 @@ func (k *c18Key) internal() map[string]interface{} {
 	return m
 }
 
-func c18Transform(nkeys int, varyRest bool) {
+func c18Transform(nkeys int, varyRest bool) { c18TransformWith(nkeys, varyRest, c18AllTypes, c18AllPurposes) }
+
+func c18TransformWith(nkeys int, varyRest bool, c18Types, c18Purposes []string) {
+	c18Rel := c18AllRel[:len(c18Purposes)]
 	var keys []*c18Key
 	var list []interface{}
 	for i := 0; i < nkeys; i++ {
-		k := c18AnyKey("k" + string(rune('0'+i)))
+		k := c18AnyKey("k"+string(rune('0'+i)), c18Types, c18Purposes)
 		keys = append(keys, k)
 		list = append(list, k.internal())
 	}
@@ -193,10 +197,13 @@ func c18Transform(nkeys int, varyRest bool) {
 func Harness_C18_TransformOneKey() { c18Transform(1, false) }
 
 // Harness_C18_TransformRest: services (with further members), also-known-as, method contexts, @base.
-func Harness_C18_TransformRest() {
-	c18Types = c18Types[:1]
-	c18Transform(1, true)
-}
+func Harness_C18_TransformRest() { c18TransformWith(1, true, c18AllTypes[:1], c18AllPurposes) }
 
 // HarnessT_C18_TransformTwoKeys: two keys (order, context de-duplication, shared relationships).
 func HarnessT_C18_TransformTwoKeys() { c18Transform(2, false) }
+
+// Harness_C18_ThreeKeyContexts: three keys of any of three types in any order (e.g. A, B, A): one context per key
+// type used, every key emitted once and in order.
+func Harness_C18_ThreeKeyContexts() {
+	c18TransformWith(3, false, []string{jsonWebKey2020, ecdsaSecp256k1VerificationKey2019, x25519KeyAgreementKey2019}, nil)
+}
